@@ -32,6 +32,8 @@ structure SqlInst where
   out     : List (Slice × String × String) := []   -- batches handed out since the last wait, with their statement
   handler : Bool := false
   res     : Nat := 0
+  rerr    : Nat := 0            -- result-handler calls that were given Exec's error
+  mode    : Nat := 0            -- outcome of Exec: 0 ok, 1 returns an error, 2 panics (RunSafe recovers: no result-handler call)
   gate    : Bool := false
   hits    : Nat := 0            -- threshold hand-overs since the gate was closed
   helper  : Option (List Nat) := none   -- rows the parked helper goroutine still has to insert
@@ -46,6 +48,7 @@ structure SqlxSt where
   insts : List (Nat × SqlInst) := []
   next  : Nat := 1
   dead  : Bool := false
+  n     : Nat := 0          -- lines of this section seen so far
 
 def SqlxSt.get (s : SqlxSt) (k : Nat) : SqlInst := ((s.insts.find? fun p => p.1 == k).map (·.2)).getD {}
 def SqlxSt.set (s : SqlxSt) (k : Nat) (i : SqlInst) : SqlxSt :=
@@ -83,7 +86,9 @@ def tokAfter (toks : List String) (key : String) : Option String :=
 /-- take the pending rows out (Flush): a non-empty batch goes to Exec with the CURRENT statement -/
 def SqlInst.flush (i : SqlInst) : SqlInst :=
   let r := SqlC.removeAll i.c
-  if r.2.len > 0 then { i with c := r.1, out := i.out ++ [(r.2, i.pre, i.suf)], res := if i.handler then i.res + 1 else i.res }
+  if r.2.len > 0 then { i with c := r.1, out := i.out ++ [(r.2, i.pre, i.suf)],
+                                res := if i.handler ∧ i.mode ≠ 2 then i.res + 1 else i.res,
+                                rerr := if i.handler ∧ i.mode = 1 then i.rerr + 1 else i.rerr }
   else { i with c := r.1 }
 
 /-- insert rows one by one; with `stopAtHit` the inserting goroutine parks at its first hand-over (the flusher is
@@ -113,7 +118,7 @@ def expectWait (h : Heap String) (i : SqlInst) : List String :=
     | some q =>
       let ns := rows.filterMap fun r => (String.ofList ((r.toList.drop 1).dropLast)).toNat?
       some (ns.headD 0, s!"x={sqlHash q}|{us pre}|{",".intercalate (showRows ns)}|{us suf}")
-  (sortExecs execs).map (·.2) ++ [s!"res={i.res}", "bad=0"]
+  (sortExecs execs).map (·.2) ++ [s!"res={i.res}", s!"rerr={i.rerr}", "bad=0"]
 
 def sqlxLine (max : Int) (hook : Bool) (sec : Nat) (acc : Report × SqlxSt) (l : Line) : Report × SqlxSt := Id.run do
   let (r0, s) := acc
@@ -121,6 +126,10 @@ def sqlxLine (max : Int) (hook : Bool) (sec : Nat) (acc : Report × SqlxSt) (l :
   let impl := joinSp l.obs
   r := r.addCover ("sqlx-op-" ++ l.op.headD "?")
   if s.dead then return (r, s)
+  if impl = "stuck" then
+    if s.n = 0 then return (r.addCover "sqlx-skipped-after-a-wedged-executor", { s with dead := true })
+    return (r.violation sec l.idx s!"sqlx BulkInserter: {" ".intercalate l.op}: the call never returns (every goroutine is parked: the executor is wedged) — Insert / Flush / Wait must come back, Wait when every accepted row has been handed to Exec", { s with dead := true })
+  let s := { s with n := s.n + 1 }
   let bad := (r.mismatch sec l.idx "a known op" impl, { s with dead := true })
   match l.op with
   | [op, ks] | [op, ks, _] =>
@@ -193,12 +202,34 @@ def sqlxLine (max : Int) (hook : Bool) (sec : Nat) (acc : Report × SqlxSt) (l :
     if i.gate then return skip "behind-gate"
     match op with
     | "flush" | "upd" =>
-      if impl ≠ "ok" then r := r.mismatch sec l.idx "ok" impl
+      -- "on an explicit Flush": when Flush has returned (when the fn of UpdateOrDelete runs) nothing is pending
+      let c := kvInt l.obs "c" 0
+      if c > 0 then
+        r := r.violation sec l.idx s!"sqlx BulkInserter: {c} rows are still pending in the inserter {if op = "flush" then "after Flush has returned" else "when the fn of UpdateOrDelete runs"}: an explicit Flush must hand every accepted row to Exec"
+      if c < 0 then
+        r := r.violation sec l.idx "sqlx BulkInserter: UpdateOrDelete did not run fn"
+      if impl ≠ "ok c=0" then r := r.mismatch sec l.idx "ok c=0" impl
       if i.c.values.len > 0 then r := r.addCover "sqlx-flush-takes-partial-batch"
       return (r, s.set k i.flush)
-    | "hand" =>
+    | "hand" | "handp" =>
       if impl ≠ "ok" then r := r.mismatch sec l.idx "ok" impl
-      return (r, s.set k { i.flush with handler := true })
+      -- a handler that panics after counting: RunSafe recovers, the flusher / the caller go on
+      return (r.addCover ("sqlx-result-handler-" ++ (if op = "handp" then "panicking" else "counting")), s.set k { i.flush with handler := true })
+    | "unhand" =>
+      if impl ≠ "ok" then r := r.mismatch sec l.idx "ok" impl
+      return (r.addCover "sqlx-result-handler-nil", s.set k { i.flush with handler := false })
+    | "mode" =>
+      let some m := arg | return bad
+      if m > 2 then return bad
+      if impl ≠ "ok" then r := r.mismatch sec l.idx "ok" impl
+      return (r.addCover s!"sqlx-exec-outcome-{if m = 0 then "ok" else if m = 1 then "error" else "panic"}-{if i.handler then "with" else "without"}-result-handler",
+              s.set k { i.flush with mode := m })
+    | "insx" =>
+      -- `format` rejects the arguments: Insert returns the error BEFORE executor.Add — nothing is accepted
+      if impl ≠ "err" then
+        r := r.mismatch sec l.idx "err" impl
+        return (r, { s with dead := true })
+      return (r.addCover "sqlx-insert-rejected-by-format", s)
     | "stmt" =>
       let some si := arg | return bad
       let i1 := i.flush
@@ -259,6 +290,8 @@ def sqlxLine (max : Int) (hook : Bool) (sec : Nat) (acc : Report × SqlxSt) (l :
           r := r.mismatch sec l.idx (joinSp wantToks) impl
           return (r, { s with dead := true })
       if i1.out.length > 1 then r := r.addCover "sqlx-several-batches-in-one-wait"
+      if i1.out.length > 0 ∧ i1.mode = 1 then r := r.addCover "sqlx-batches-executed-while-Exec-returns-an-error"
+      if i1.out.length > 0 ∧ i1.mode = 2 then r := r.addCover "sqlx-batches-executed-while-Exec-panics"
       return (r, s.set k { i1 with out := [], since := [] })
     | _ => return bad
   | _ => return bad
